@@ -488,6 +488,9 @@ def bulk_check(ctx):
     env = Env()
     rec = ctx.rec
     valid = [s for s in STARTS if "Nope" not in s]
+    # cells in which every Def tag is written in another letter case (tag names are case-insensitive)
+    valid += ["def/Pl", "DEF/Vt/abc, Circle", "(dEf/Vu/3, Circle)", "def/Pl, (DEF/Vt/x, (def/Ne))",
+              "(def-expand/Pl, (Red, Square))", "Circle, (DEF-EXPAND/Vt/abc, (Label/abc, Blue))"]
     ser = pd.Series(valid, dtype=str)
     df_util.expand_defs(ser, env.schema, env.dd)
     for s, got in zip(valid, ser):
